@@ -36,7 +36,8 @@ type FuncSpec struct {
 	MayPanic bool // explicit panics are allowed exits (no obligation)
 	Props    []string
 	Flags    map[string]string
-	Uses     []string // lemma instantiations (unused for now)
+	Uses     []string // lemma instantiations
+	AtCalls  map[string][]Clause // "callee@n" -> extra call-site preconditions (typestate)
 	File     string
 	Line     int
 }
@@ -66,18 +67,19 @@ type SpecSet struct {
 	Specs   map[string]*SpecFunc // by pkg.name
 	Axioms  []*Axiom
 	Consts  map[string]bool // immutable globals "pkg.Name"
+	Ghost   map[string]string // ghost heap components: name -> element sort text (bool|int|ptr)
 	Order   []string        // function keys in file order
 }
 
 func newSpecSet() *SpecSet {
-	return &SpecSet{Funcs: map[string]*FuncSpec{}, Specs: map[string]*SpecFunc{}, Consts: map[string]bool{}}
+	return &SpecSet{Funcs: map[string]*FuncSpec{}, Specs: map[string]*SpecFunc{}, Consts: map[string]bool{}, Ghost: map[string]string{}}
 }
 
 var clauseKeywords = map[string]bool{
 	"func": true, "spec": true, "axiom": true, "requires": true, "ensures": true,
 	"modifies": true, "pure": true, "loop": true, "inline": true, "trusted": true,
 	"maypanic": true, "property": true, "returns": true, "flag": true, "use": true,
-	"constglobal": true, "opaque": true, "package": true,
+	"constglobal": true, "opaque": true, "package": true, "ghostcomp": true, "atcall": true,
 }
 
 var reLabel = regexp.MustCompile(`^@([A-Za-z0-9_.\-]+)\s+`)
@@ -154,7 +156,7 @@ func (ss *SpecSet) loadSpecFile(path, pkgName string) error {
 					rets = append(rets, strings.TrimSpace(x))
 				}
 			}
-			cur = &FuncSpec{Pkg: pkgName, Name: name, Returns: rets, Loops: map[int]*LoopSpec{}, Flags: map[string]string{}, File: path, Line: rc.line}
+			cur = &FuncSpec{Pkg: pkgName, Name: name, Returns: rets, Loops: map[int]*LoopSpec{}, Flags: map[string]string{}, AtCalls: map[string][]Clause{}, File: path, Line: rc.line}
 			if _, dup := ss.Funcs[cur.Key()]; dup {
 				return fmt.Errorf("%s:%d: duplicate contract for %s", path, rc.line, cur.Key())
 			}
@@ -179,6 +181,12 @@ func (ss *SpecSet) loadSpecFile(path, pkgName string) error {
 			}
 			ss.Axioms = append(ss.Axioms, &Axiom{Pkg: pkgName, Name: strings.TrimSpace(rest[:i]), C: c})
 			cur = nil
+		case "ghostcomp":
+			f := strings.Fields(rest)
+			if len(f) != 2 {
+				return fmt.Errorf("%s:%d: ghostcomp NAME bool|int|ptr", path, rc.line)
+			}
+			ss.Ghost[f[0]] = f[1]
 		case "constglobal":
 			for _, g := range strings.Fields(rest) {
 				ss.Consts[pkgName+"."+g] = true
@@ -245,6 +253,17 @@ func (ss *SpecSet) loadSpecFile(path, pkgName string) error {
 				}
 			case "use":
 				cur.Uses = append(cur.Uses, rest)
+			case "atcall":
+				// atcall <callee>@<n> requires <expr>
+				parts := strings.SplitN(rest, " ", 3)
+				if len(parts) < 3 || parts[1] != "requires" {
+					return fmt.Errorf("%s:%d: expected 'atcall <callee>@<n> requires <expr>'", path, rc.line)
+				}
+				c, err := mkClause(strings.TrimSpace(parts[2]))
+				if err != nil {
+					return err
+				}
+				cur.AtCalls[parts[0]] = append(cur.AtCalls[parts[0]], c)
 			default:
 				return fmt.Errorf("%s:%d: unknown clause %q", path, rc.line, kw)
 			}
